@@ -13,6 +13,7 @@ import (
 	"flag"
 	"fmt"
 	"os"
+	"path/filepath"
 	"runtime/pprof"
 	"sort"
 	"strings"
@@ -25,13 +26,15 @@ import (
 	"k8s.io/apimachinery/pkg/types"
 	"k8s.io/utils/ptr"
 	"google.golang.org/protobuf/types/known/structpb"
+	"sigs.k8s.io/controller-runtime/pkg/client"
 	"sigs.k8s.io/controller-runtime/pkg/reconcile"
 
-	"github.com/crossplane/crossplane-runtime/pkg/resource"
+
 	ucomposite "github.com/crossplane/crossplane-runtime/pkg/resource/unstructured/composite"
 
 	fnv1 "github.com/crossplane/crossplane/apis/apiextensions/fn/proto/v1"
 	v1 "github.com/crossplane/crossplane/apis/apiextensions/v1"
+	pkgv1 "github.com/crossplane/crossplane/apis/pkg/v1"
 	"github.com/crossplane/crossplane/internal/controller/apiextensions/composite"
 	"github.com/crossplane/crossplane/zzverif/replay"
 	"github.com/crossplane/crossplane/zzverif/scen"
@@ -56,6 +59,8 @@ var (
 type world struct {
 	s        *simapi.Server
 	c, uc    *simapi.Client
+	xfnc     *simapi.Client // the PackagedFunctionRunner's reader (not intercepted, not traced)
+	forge    bool           // the desired resources' bodies carry a stale composition-resource-name annotation
 	rec      reconcile.Reconciler
 	tw       *trace.Writer
 	scenID   string
@@ -159,7 +164,12 @@ func (w *world) post() map[string]any {
 			if rn == "" {
 				rn = "-"
 			}
-			objs = append(objs, map[string]any{"id": w.idOf(o.GetName()), "ctrl": ctrl, "rname": rn, "st": st})
+			// which desired resource / template the stored body was rendered from (the scripted bodies carry it in spec.param)
+			made, _, _ := unstructured.NestedString(o.Object, "spec", "param")
+			if made == "" {
+				made = "-"
+			}
+			objs = append(objs, map[string]any{"id": w.idOf(o.GetName()), "ctrl": ctrl, "rname": rn, "st": st, "made": made})
 		}
 	})
 	sort.Slice(objs, func(i, j int) bool { return objs[i].(map[string]any)["id"].(string) < objs[j].(map[string]any)["id"].(string) })
@@ -298,13 +308,27 @@ func thing(name, rname string, owner *metav1.OwnerReference) *unstructured.Unstr
 	return u
 }
 
+// staleNameFor is the name a forged annotation carries: another desired name if there is one
+func (w *world) staleNameFor(n string) string {
+	for i, m := range w.names {
+		if m == n && len(w.names) > 1 {
+			return w.names[(i+1)%len(w.names)]
+		}
+	}
+	return "zz-stale"
+}
+
 func (w *world) setTemplates() {
 	w.s.Mutate(revKey, func(u *unstructured.Unstructured) {
 		res := []any{}
 		for _, n := range w.want {
+			base := map[string]any{"apiVersion": fmt.Sprintf("ex.org/v%d", w.ver), "kind": "Thing", "spec": map[string]any{"param": n}}
+			if w.forge {
+				base["metadata"] = map[string]any{"annotations": map[string]any{annName: w.staleNameFor(n)}}
+			}
 			res = append(res, map[string]any{
 				"name": n,
-				"base": map[string]any{"apiVersion": fmt.Sprintf("ex.org/v%d", w.ver), "kind": "Thing", "spec": map[string]any{"param": n}},
+				"base": base,
 				"patches": []any{
 					map[string]any{"type": "FromCompositeFieldPath", "fromFieldPath": "spec.size", "toFieldPath": "spec.size"},
 					// a Required patch: the template cannot be rendered while the XR field is missing (env step "rfail")
@@ -354,6 +378,14 @@ func (w *world) env(e replay.Entry) {
 		if w.mode == "PT" {
 			w.setTemplates()
 		}
+	case "forge":
+		// the author's desired resources now carry (or no longer carry) a composition-resource-name annotation that
+		// names ANOTHER resource (YAML pasted from a live composed resource, a body built by copying another one):
+		// Crossplane's own value must win
+		w.forge = !w.forge
+		if w.mode == "PT" {
+			w.setTemplates()
+		}
 	case "remove":
 		w.s.Remove(cdKey(w.rev[e.O]))
 		if w.al != nil {
@@ -386,6 +418,14 @@ func (w *world) desiredFor(names []string) map[string]*fnv1.Resource {
 		if n == w.fixed {
 			body["metadata"] = map[string]any{"name": "fixed"}
 		}
+		if w.forge {
+			md, _ := body["metadata"].(map[string]any)
+			if md == nil {
+				md = map[string]any{}
+			}
+			md["annotations"] = map[string]any{annName: w.staleNameFor(n)}
+			body["metadata"] = md
+		}
 		s, _ := structpb.NewStruct(body)
 		out[n] = &fnv1.Resource{Resource: s}
 	}
@@ -411,6 +451,19 @@ func (w *world) runFunction(ctx context.Context, name string, req *fnv1.RunFunct
 		w.inCompose = true
 	}
 	w.fnCalls++
+	if w.al != nil {
+		// what this step was told exists: the composed resources in the request's observed state
+		seen := []string{}
+		for _, r := range req.GetObserved().GetResources() {
+			if md, _ := r.GetResource().AsMap()["metadata"].(map[string]any); md != nil {
+				if n, _ := md["name"].(string); n != "" {
+					seen = append(seen, w.idOf(n))
+				}
+			}
+		}
+		sort.Strings(seen)
+		w.emit("fn", map[string]any{"step": step, "observed": strs(seen)})
+	}
 	kind, at := strings.TrimRight(w.failKind, "12"), 0
 	if w.failKind != "" {
 		at = 1
@@ -459,6 +512,7 @@ func newWorld(tw *trace.Writer, id string, init map[string]any) *world {
 	sch := runtime.NewScheme()
 	_ = v1.AddToScheme(sch)
 	_ = corev1.AddToScheme(sch)
+	_ = pkgv1.AddToScheme(sch)
 	s := simapi.NewServer(sch)
 	w := &world{s: s, tw: tw, scenID: id, ids: map[string]string{}, rev: map[string]string{}, ver: 1}
 	w.c = simapi.NewClient(s, "xr")
@@ -494,7 +548,21 @@ func newWorld(tw *trace.Writer, id string, init map[string]any) *world {
 	case "name":
 		w.fixed = fixedName
 		w.ids["fixed"], w.rev["fixed"] = "fixed", "fixed"
-		s.Put(thing("fixed", "", foreign))
+		// the foreign owner is a near twin of our XR - same name, and either the same kind in another API group or another
+		// kind in the same group - that composed the object the way our XR would: server-side apply under the field manager
+		// the real ComposedFieldOwnerName derives for it (added after the seeded change C02-m5 - a field manager name that
+		// no longer tells such twins apart lets the API server hand the object over - was missed)
+		twin := ucomposite.New(ucomposite.WithGroupVersionKind(schema.GroupVersionKind{Group: "other.org", Version: "v1", Kind: xrGVK.Kind}))
+		if sha256.Sum256([]byte(id))[0]%2 == 1 {
+			twin = ucomposite.New(ucomposite.WithGroupVersionKind(schema.GroupVersionKind{Group: xrGVK.Group, Version: "v1", Kind: "XOther"}))
+		}
+		twin.SetName(xrName)
+		towner := &metav1.OwnerReference{APIVersion: twin.GetAPIVersion(), Kind: twin.GetKind(), Name: xrName, UID: "foreign-uid", Controller: ptr.To(true), BlockOwnerDeletion: ptr.To(true)}
+		body := thing("fixed", "", towner)
+		_ = unstructured.SetNestedField(body.Object, "theirs", "spec", "owner")
+		if err := simapi.NewClient(s, "twin").Patch(context.Background(), body, client.Apply, client.ForceOwnership, client.FieldOwner(composite.ComposedFieldOwnerName(twin))); err != nil {
+			panic(err)
+		}
 	}
 	w.xrUID = s.Put(xr).GetUID()
 
@@ -514,31 +582,18 @@ func newWorld(tw *trace.Writer, id string, init map[string]any) *world {
 		w.setTemplates()
 	}
 
-	// the production wiring of definition.Reconciler.CompositeReconcilerOptions, with a scripted function runner
-	fetcher := composite.NewSecretConnectionDetailsFetcher(w.c)
-	ptc := composite.NewPTComposer(w.c, w.uc, composite.WithComposedConnectionDetailsFetcher(fetcher))
-	runner := composite.NewFetchingFunctionRunner(composite.FunctionRunnerFn(w.runFunction), composite.NewExistingExtraResourcesFetcher(w.c))
-	fc := composite.NewFunctionComposer(w.c, w.uc, runner,
-		composite.WithComposedResourceObserver(composite.NewExistingComposedResourceObserver(w.c, w.uc, fetcher)),
-		composite.WithCompositeConnectionDetailsFetcher(fetcher))
-	w.rec = composite.NewReconciler(w.c, w.uc, resource.CompositeKind(xrGVK),
-		composite.WithConnectionPublishers(composite.NewAPIFilteredSecretPublisher(w.c, nil)),
-		composite.WithCompositionSelector(composite.NewCompositionSelectorChain(composite.NewAPILabelSelectorResolver(w.c))),
-		composite.WithComposer(composite.ComposerSelectorFn(func(cm *v1.CompositionMode) composite.Composer {
-			var inner composite.Composer = ptc
-			if cm != nil && *cm == v1.CompositionModePipeline {
-				inner = fc
-			}
-			// observe (only) whether Compose returned an error
-			return composite.ComposerFn(func(ctx context.Context, xr *ucomposite.Unstructured, req composite.CompositionRequest) (composite.CompositionResult, error) {
-				res, err := inner.Compose(ctx, xr, req)
-				w.composed, w.composeErr = true, err
-				return res, err
-			})
-		})))
+	// the production wiring: definition.Reconciler.CompositeReconcilerOptions + the real PackagedFunctionRunner (wiring.go)
+	w.xfnc = simapi.NewClient(s, "xfn")
+	putFunctions(s)
+	w.rec = w.buildReconciler()
 	icpt := func(cl *simapi.Call) simapi.Decision {
 		if w.al == nil {
 			return simapi.Proceed
+		}
+		if cl.Actor == "xr" && cl.Verb == "get" && cl.Key.Kind == "Thing" && w.missed[cl.Key.Name] {
+			// an informer cache that has not seen the resource yet does not see it for the rest of this reconcile either:
+			// only a read through the live client finds it
+			return simapi.CacheMiss
 		}
 		abs := w.classify(cl)
 		if w.mode == "PT" && !w.inCompose && (strings.HasPrefix(abs, "update:o") || abs == "update:xr" || strings.HasPrefix(abs, "create:") || strings.HasPrefix(abs, "patch:")) {
@@ -562,9 +617,27 @@ type sweep struct {
 
 func (w *world) reconcile(al *replay.Aligner, sw *sweep) int {
 	w.recNo++
+	setCurrent(w)
 	al.Virtual = func(e replay.Entry) bool { return w.mode == "PT" && e.K == "desire" }
 	al.Ignore = func(abs string) bool { return strings.HasPrefix(abs, "pre:") }
 	al.Window = 6
+	if w.mode == "PT" {
+		// the associator reads and collects object by object, the model collects after all reads: an environment step in
+		// the middle of the collection of one object commutes with the reads of the others
+		al.PastEnv = func(envs, skipped []replay.Entry) bool {
+			for _, e := range envs {
+				if e.K != "grab" && e.K != "remove" {
+					return false
+				}
+				for _, c := range skipped {
+					if c.O == e.O || c.O == "xr" {
+						return false
+					}
+				}
+			}
+			return true
+		}
+	}
 	w.al = al
 	w.pfail, w.failKind, w.inCompose, w.gcd, w.fnCalls, w.reqRound = false, "", false, nil, 0, 0
 	w.vanished = nil
@@ -685,6 +758,9 @@ func main() {
 		defer pprof.StopCPUProfile()
 	}
 
+	sockDir := filepath.Join(filepath.Dir(*tracePath), fmt.Sprintf("sock-%d", os.Getpid()))
+	startServers(sockDir)
+	defer stopServers(sockDir)
 	if *conds {
 		condsMain(*scenarios, *tracePath, *sumPath, *chunk)
 		return
